@@ -6,6 +6,7 @@ CONSTANTS
   FIXWRAP = TRUE
   FIXHOPS = TRUE
   FIXOHEXP = TRUE
+  FIXOHFLG = TRUE
   FIXOHSEC = TRUE
   XorAcc <- SymXor
   MAXLEN = 3
